@@ -1,4 +1,5 @@
 //! cvm — the reference model side of the chumsky verification framework (no chumsky dependency).
 pub mod ast;
+pub mod codegen;
 pub mod enumerate;
 pub mod sem;
